@@ -109,8 +109,45 @@ func (g *c12gen) js(src string) string {
 	return o.Val.String()
 }
 
+// argument spellings whose ToNumber is known: an explicit undefined is NaN (not "omitted"), null is +0,
+// booleans, numeric strings, fractions (ToInteger truncates towards zero), objects with valueOf
+func (g *c12gen) oddField() (string, string) {
+	r := g.env.Rng
+	switch r.Intn(9) {
+	case 0:
+		return "undefined", "None"
+	case 1:
+		return "null", "(Some 0)"
+	case 2:
+		return "true", "(Some 1)"
+	case 3:
+		return "false", "(Some 0)"
+	case 4:
+		v := int64(r.Intn(61) - 20)
+		return fmt.Sprintf("\"%d\"", v), "(Some " + Cz(v) + ")"
+	case 5:
+		v := int64(r.Intn(61) - 20)
+		frac := []string{".5", ".999", ".25"}[r.Intn(3)]
+		if v < 0 {
+			return fmt.Sprintf("(%d%s)", v, frac), "(Some " + Cz(v) + ")"
+		}
+		return fmt.Sprintf("%d%s", v, frac), "(Some " + Cz(v) + ")"
+	case 6:
+		v := int64(r.Intn(61) - 20)
+		return fmt.Sprintf("({valueOf: function () { return %d; }})", v), "(Some " + Cz(v) + ")"
+	case 7:
+		return "\"x\"", "None"
+	default:
+		return "void 0", "None"
+	}
+}
+
 func (g *c12gen) field() (string, string) { // (js text, coq option Z)
 	r := g.env.Rng
+	if r.Intn(9) == 0 {
+		g.env.Dist["odd-argument"]++
+		return g.oddField()
+	}
 	switch r.Intn(12) {
 	case 0:
 		return "NaN", "None"
@@ -155,8 +192,32 @@ func runC12(env *Env) {
 	const getJS = `[d.getTime(), d.getUTCFullYear(), d.getUTCMonth(), d.getUTCDate(), d.getUTCDay(), d.getUTCHours(), d.getUTCMinutes(), d.getUTCSeconds(), d.getUTCMilliseconds(), d.valueOf(), d.getFullYear(), d.getMonth(), d.getDate(), d.getDay(), d.getHours(), d.getMinutes(), d.getSeconds(), d.getMilliseconds()].join(",")`
 	// pinned witnesses of the listed findings run first
 	pinned := []int64{maxTime + 1, -maxTime - 1}
+	// the UTC functions must not depend on the host's zone: a third of the cases run with time.Local set to a
+	// zone whose offset has a seconds component (as the pre-standard local mean times of the zone database
+	// have), a half-hour zone, or a DST zone when the zone database is available; those cases use only
+	// zone-independent functions (the local getters of getJS are replaced by their UTC counterparts)
+	zones := []*time.Location{time.UTC, time.FixedZone("LMT", -(4*3600 + 56*60 + 2)), time.FixedZone("IST", 5*3600+30*60), time.FixedZone("X", 13*3600+45*60+7)}
+	if ny, err := time.LoadLocation("America/New_York"); err == nil {
+		zones = append(zones, ny)
+	}
+	getJSUTC := strings.NewReplacer("d.getFullYear()", "d.getUTCFullYear()", "d.getMonth()", "d.getUTCMonth()", "d.getDate()", "d.getUTCDate()",
+		"d.getDay()", "d.getUTCDay()", "d.getHours()", "d.getUTCHours()", "d.getMinutes()", "d.getUTCMinutes()", "d.getSeconds()", "d.getUTCSeconds()",
+		"d.getMilliseconds()", "d.getUTCMilliseconds()").Replace(getJS)
+	defer func() { time.Local = time.UTC }()
 	for i := 0; env.Count() < env.N; i++ {
 		kind := r.Intn(10)
+		odd := false
+		time.Local = time.UTC
+		if r.Intn(3) == 0 {
+			z := zones[1+r.Intn(len(zones)-1)]
+			time.Local = z
+			odd = true
+			env.Dist["zone:"+z.String()]++
+		}
+		getJS := getJS
+		if odd {
+			getJS = getJSUTC
+		}
 		switch {
 		case i < len(pinned):
 			t := pinned[i]
@@ -193,7 +254,7 @@ func runC12(env *Env) {
 			}
 			which := "Date.UTC(" + strings.Join(js, ",") + ")"
 			tag := "0"
-			if r.Intn(3) == 0 {
+			if r.Intn(3) == 0 && !odd { // the multi-argument constructor reads its fields as local time
 				which = "new Date(" + strings.Join(js, ",") + ").getTime()"
 				tag = "1"
 			}
